@@ -25,7 +25,7 @@ MECHANISMS = [('cgsmiles.write_cgsmiles', 'format_bonding'), ('cgsmiles.write_cg
               ('cgsmiles.write_cgsmiles', 'write_cgsmiles'), ('cgsmiles.write_cgsmiles', 'write_graph'),
               ('cgsmiles.read_fragments', 'fragment_iter')]
 FINDING_FEATURES = {}
-SIZES = {'quick': 5000, 'thorough': 120000}
+SIZES = {'quick': 7000, 'thorough': 120000}
 
 
 def frag_set_case(rng):
